@@ -131,7 +131,7 @@ def o142(ctx):
                 and tm.cval(n.args[1]) in (1, 1.0) and tm.cval(n.args[2]) in (0, 0.0):
             tw = n
     target_idx = to_term(st.args[1])
-    existing = [n for n in tm.walk(vt) if n.op == "call" and n.args[0] == "getitem" and not tm.has_call(n, "cryocat.cryomap.rotate")
+    existing = [n for n in tm.walk(vt) if n.op == "call" and n.args[0] == "getitem" and not tm.has_call(n.args[1], "cryocat.cryomap.rotate")
                 and n.args[2] == target_idx]
     col_idx = {n.key(): n for n in tm.walk(tm.subst(vt, {tw: const(1.0)}) if tw is not None else vt)
                if n.op == "call" and n.args[0] == "enum_index"}
@@ -144,7 +144,7 @@ def o142(ctx):
     inside = tm.subst(vt, {tw: const(1.0)})
     outside = tm.subst(vt, {tw: const(0.0)})
     ctx.count(1)
-    if not existing or not tm.equivalent(outside, existing[0], seed_tag="outside"):
+    if not existing or not tm.equivalent(outside, tm.subst(existing[0], {tw: const(0.0)}), seed_tag="outside"):
         ctx.finding(q, st.node, "voxels of the stamp window outside the thresholded template must keep the existing content of the "
                     "volume (earlier particles / a pre-filled volume); the code overwrites them", st.node, m,
                     outside=tm.show(outside)[:160])
